@@ -62,13 +62,21 @@ func usedTable(spec string, t codon.Table) string {
 	return tableText(t)
 }
 
+var throwAwayCount int
+
 func c06Translate(s string, t codon.Table) (st, val string) {
 	defer func() {
 		if p := recover(); p != nil {
 			st, val = "panic", fmt.Sprint(p)
 		}
 	}()
-	_, _ = codon.Translate("GT", t) // throw-away call that ends in a partial codon (see the header)
+	// throw-away call that ends in a partial codon of one or two letters, alternating (see the header)
+	throwAwayCount++
+	if throwAwayCount%2 == 0 {
+		_, _ = codon.Translate("GT", t)
+	} else {
+		_, _ = codon.Translate("G", t)
+	}
 	v, err := codon.Translate(s, t)
 	if err != nil {
 		return "err", ""
@@ -417,7 +425,8 @@ func init() {
 		return []string{usedTable(a[0], t), strings.Join(es, ","), strconv.Itoa(bad)}, nil
 	})
 
-	// optreplay SPEC protein CHOOSERS -> table, status, dna, found, offset, "r1,r2,…", touched (did the call touch the global generator)
+	// optreplay SPEC protein CHOOSERS -> table, status, dna, found, offset | "probe-seed", "r1,r2,…", touched (did the call touch the
+	// global generator), status and value of Translate(dna)
 	// CHOOSERS = "L:ITEM=w,ITEM=w;K:…": per residue letter the choices in the order the MODEL says NewChooser leaves them.
 	// Optimize seeds math/rand with the wall clock in nanoseconds. The clock is read before and after the call; for
 	// every nanosecond s in that window (and a margin) the harness re-seeds with s and replays the model's picks
@@ -458,11 +467,11 @@ func init() {
 			touched = "0"
 		}
 		if st != "ok" {
-			return []string{usedTable(a[0], t), st, "", "0", "0", "", touched}, nil
+			return []string{usedTable(a[0], t), st, "", "0", "0", "", touched, "-", ""}, nil
 		}
 		runes := []rune(p)
 		if len(dna) != 3*len(runes) {
-			return []string{usedTable(a[0], t), st, dna, "0", "0", "", touched}, nil
+			return []string{usedTable(a[0], t), st, dna, "0", "0", "", touched, "-", ""}, nil
 		}
 		try := func(seed int64, record bool) (bool, []int) {
 			rand.Seed(seed)
@@ -483,20 +492,32 @@ func init() {
 			}
 			return true, rs
 		}
-		// the seed was read between t0 and t1; a margin on both sides is searched last
-		var cands []int64
-		for s := t0; s <= t1; s++ {
-			cands = append(cands, s)
+		tst, tv := c06Translate(dna, t)
+		found := func(s int64, how string) ([]string, error) {
+			_, rs := try(s, true)
+			return []string{usedTable(a[0], t), st, dna, "1", how, joinInts2(rs), touched, tst, tv}, nil
 		}
-		for d := int64(1); d <= 2000; d++ {
-			cands = append(cands, t1+d, t0-d)
+		// (1) Optimize did not re-seed: the draws continue the stream of the probe seed set just before the call
+		if ok, _ := try(probeSeed, false); ok {
+			return found(probeSeed, "probe-seed")
 		}
-		for _, s := range cands {
+		// (2) the clock value read between t0 and t1 (at most 5 ms of it), then a margin of 2 microseconds on both sides
+		hi := t1
+		if hi > t0+5000000 {
+			hi = t0 + 5000000
+		}
+		for s := t0; s <= hi; s++ {
 			if ok, _ := try(s, false); ok {
-				_, rs := try(s, true)
-				return []string{usedTable(a[0], t), st, dna, "1", strconv.FormatInt(s-t0, 10), joinInts2(rs), touched}, nil
+				return found(s, strconv.FormatInt(s-t0, 10))
 			}
 		}
-		return []string{usedTable(a[0], t), st, dna, "0", strconv.FormatInt(t1-t0, 10), "", touched}, nil
+		for d := int64(1); d <= 2000; d++ {
+			for _, s := range []int64{t1 + d, t0 - d} {
+				if ok, _ := try(s, false); ok {
+					return found(s, strconv.FormatInt(s-t0, 10))
+				}
+			}
+		}
+		return []string{usedTable(a[0], t), st, dna, "0", strconv.FormatInt(t1-t0, 10), "", touched, tst, tv}, nil
 	})
 }
